@@ -46,7 +46,8 @@ type simState struct {
 	dev  int
 	hist []simEvent
 
-	skipDC bool // script: leave "peer disconnected" notifications pending
+	skipDC  bool // script: leave "peer disconnected" notifications pending
+	exclude int  // fair continuation: index of the node that stays away (-1: none)
 }
 
 func newSimState(sc *simScenario) (*simState, error) {
@@ -54,7 +55,7 @@ func newSimState(sc *simScenario) (*simState, error) {
 	for _, o := range sc.Oracles {
 		w.led.oracles[o] = true
 	}
-	s := &simState{w: w, sc: sc}
+	s := &simState{w: w, sc: sc, exclude: -1}
 	s.cnt.Crashes = sc.Crashes
 	if err := w.boot(); err != nil {
 		return s, err
